@@ -1,6 +1,6 @@
 CONSTANTS
   W = 8
-  DEV_B64TrailingBits = TRUE
+  DEV_B64TrailingBits = FALSE
   DEV_B32UpperOnly = TRUE
   DEV_B32Loose = TRUE
   DEV_ZeroJsonRejected = TRUE
